@@ -46,14 +46,14 @@ def main():
             c = [x.strip() for x in l.strip('|\n').split('|')]; res[c[1]] = (c[3], c[4])
     out = ["\n\n## 9. Sensitivity: independently seeded changes and mutants\n",
            f"### 9.1 Independently seeded changes ({len(rows)}; each confirmed: demo passes without / fails with the change, unedited suite 598 passed with it)\n",
-           "Written by fresh sub-agents from the property text alone (section 4), in three rounds (rounds 2 and 3 were told which ideas had been used, nothing else; round 3 was asked for the hard kinds: state carried between calls, rare input representations, narrow numeric regimes, cooperating edits). `verdict` is the owning *quick* check at seed 1 on the current machinery (`tools/seeded_all.sh`; all labels in `seeded/RESULTS.md`); `first` says whether the first version of the check caught it.\n",
+           "Written by fresh sub-agents from the property text alone (section 4), in four rounds (rounds 2–4 were told which ideas had been used, nothing else; rounds 3 and 4 were asked for the hard kinds: state carried between calls, rare input representations, narrow numeric regimes, cooperating edits). `verdict` is the owning *quick* check at seed 1 on the current machinery (`tools/seeded_all.sh`; all labels in `seeded/RESULTS.md`); `first` says whether the first version of the check caught it.\n",
            "| change | needs, in order to manifest | verdict | first | first sub-check:label |", "|---|---|---|---|---|"]
     for name, needs in rows:
         v, lab = res.get(name, ('?', ''))
         first = f"MISSED (round {MISSED[name][0]})" if name in MISSED else 'caught'
         out.append(f"| {name} | {needs} | {v} | {first} | {lab.split(' ')[0] if lab else ''} |")
     nm = len(MISSED)
-    out.append(f"\n**{nm} of the {len(rows)} were missed by the first version of the owning check** (round 1: 2 of 37, round 2: 10 of 40, round 3 — asked for the hard kinds — 11 of 20). Each miss was turned into a stronger generator or oracle, never into a special case for that patch, and all {len(rows)} are now CAUGHT by the quick tier:\n")
+    out.append(f"\n**{nm} of the {len(rows)} were missed by the first version of the owning check** (round 1: 2 of 37, round 2: 10 of 40, rounds 3 and 4 — asked for the hard kinds — 11 of 20 each). Each miss was turned into a stronger generator or oracle, never into a special case for that patch, and all {len(rows)} are now CAUGHT by the quick tier:\n")
     for name, (rnd, txt) in MISSED.items():
         out.append(f"* `{name}` — {txt}")
     out.append("\nThe lesson that recurred: checks that build a fresh object for every call cannot see state carried between calls. The history dimension (same object called again, arrays re-filled in place, arguments edited between calls, several methods/elements in one process) was added to C01–C04, C09, C13, C14, C17 as cheap extra calls inside each case, in addition to the dedicated history properties C10 and C19.\n")
